@@ -10,7 +10,7 @@ from __future__ import annotations
 import itertools
 from typing import Any, Dict, List, Tuple
 
-from checks.codec_common import make_unit_fn, minimize_keys, prog_case, replay_with, tagkey
+from checks.codec_common import make_contextualize, make_unit_fn, minimize_keys, prog_case, replay_with, tagkey
 from mcx.core import Ctx, Part, digest, pmap
 from odxmodel import harness, refodx, space
 from odxmodel.harness import jval, show
@@ -138,7 +138,7 @@ def check_program(L: harness.Loaded, prog: Dict[str, Any], part: Part) -> None:
                     # may fail for a legitimate other reason: a table key / length key is needed by its dependant only
                     # if the dependant is omitted too; so only flag when every omitted name is a plain optional VALUE
                     kinds = {p["name"]: p["t"] for p in prog["params"]}
-                    if all(kinds.get(o) == "VALUE" for o in omit) and omit:
+                    if all(kinds.get(o) in ("VALUE", "SYSTEM") for o in omit) and omit:
                         part.violation(f"C08/{tag}/optional-but-needed", case,
                                        f"omitting {list(omit)} (none reported required) fails: {type(exc).__name__}: {str(exc)[:100]}")
         missing_required = required - set(values)
@@ -150,13 +150,20 @@ def check_program(L: harness.Loaded, prog: Dict[str, Any], part: Part) -> None:
 unit_fn = make_unit_fn(PROPERTY, check_program)
 
 
+def units_for(quick: bool) -> List[Any]:
+    return space.layer_a_units(True) + space.layer_c_units(quick)
+
+
+contextualize = make_contextualize(PROPERTY, units_for)
+
+
 def run(ctx: Ctx) -> None:
-    units = space.layer_a_units(True) + space.layer_c_units(ctx.quick)
+    units = units_for(ctx.quick)
     ctx.bounds = {"layers": "A (quick alphabet) + C", "units": len(units), "subsets": "all subsets of <= 4 supplied parameters"}
     ctx.rule = "program x value assignment x subset of supplied parameters; non-trivial = distinct (program tags, PDU length, static length)"
     ctx.assumptions = ["object-level static lengths are measured on single-parameter programs (claimed bits for simple DOPs, PDU bytes otherwise)",
                        "settable by description = VALUE, SYSTEM, LENGTH-KEY, TABLE-KEY, TABLE-STRUCT parameters"]
-    pmap(ctx, unit_fn, units)
+    pmap(ctx, unit_fn, units, isolate=True)
     minimize_keys(ctx)
     ctx.counts["traces_validated_against_impl"] = ctx.counts.get("accepted", 0) + ctx.counts.get("subset_encodings", 0)
     ctx.sample({"program": "q_CC8a_V8a", "static_bits": 16, "prefix": "22", "required": ["v1"], "free": ["v1"]})
